@@ -7,42 +7,6 @@ namespace Huginn.Http1
 open Huginn.Http1.Spec Huginn.Gen
 set_option linter.unusedSimpArgs false
 
-/-- no non-ASCII White_Space character anywhere -/
-def NoUS (x : Bytes) : Prop := ∀ p ∈ unicodeSpaces, ¬ p <:+: x
-
-theorem noUS_of_contains : ∀ (x : Bytes), containsUSpace x = false → NoUS x
-  | [], _ => by
-    intro p hp hi
-    obtain ⟨b, t, rfl, _⟩ := uspace_head p hp
-    simp at hi
-  | b :: r, h => by
-    unfold containsUSpace at h
-    simp only [Bool.or_eq_false_iff] at h
-    intro p hp hi
-    rcases List.infix_cons_iff.mp hi with hpre | hin
-    · have := h.1
-      unfold startsWithUSpace at this
-      rw [List.any_eq_false] at this
-      exact this p hp (List.isPrefixOf_iff_prefix.mpr hpre)
-    · exact noUS_of_contains r h.2 p hp hin
-
-theorem NoUS.infix {x y : Bytes} (h : NoUS x) (hy : y <:+: x) : NoUS y :=
-  fun p hp hi => h p hp (hi.trans hy)
-
-theorem NoUS.starts {x : Bytes} (h : NoUS x) : startsWithUSpace x = false := by
-  unfold startsWithUSpace
-  rw [List.any_eq_false]
-  intro p hp hpre
-  exact h p hp (List.isPrefixOf_iff_prefix.mp hpre).isInfix
-
-theorem NoUS.ends {x : Bytes} (h : NoUS x) : endsWithUSpace x = false := by
-  unfold endsWithUSpace
-  rw [List.any_eq_false]
-  intro p hp hpre
-  have := List.isPrefixOf_iff_prefix.mp hpre
-  rw [List.reverse_prefix] at this
-  exact h p hp this.isInfix
-
 def FB (x : Bytes) : Prop := x.all isFieldByte = true
 
 theorem FB.infix {x y : Bytes} (h : FB x) (hy : y <:+: x) : FB y := by
@@ -50,51 +14,6 @@ theorem FB.infix {x y : Bytes} (h : FB x) (hy : y <:+: x) : FB y := by
   rw [List.all_eq_true] at h ⊢
   intro b hb
   exact h b (hy.subset hb)
-
-theorem trimStart_eq_dropWhile : ∀ (x : Bytes), FB x → NoUS x → trimStart x = x.dropWhile isOws
-  | [], _, _ => by simp [trimStart]
-  | b :: r, hf, hn => by
-    have hfb : isFieldByte b = true := (List.all_eq_true.mp hf) b (by simp)
-    cases ho : isOws b with
-    | true =>
-      have e : b :: r = [b] ++ r := rfl
-      rw [e, trimStart_ows [b] r (by simp [ho])]
-      simp only [List.singleton_append, List.dropWhile_cons, ho, if_true]
-      exact trimStart_eq_dropWhile r (hf.infix (List.suffix_cons b r).isInfix) (hn.infix (List.suffix_cons b r).isInfix)
-    | false =>
-      have := wsPrefix_append_ows (b :: r) [] (by simp)
-        (by intro c hc; simp at hc; subst hc; exact fieldByte_not_ws1 hfb ho) hn.starts (by simp)
-      simp only [List.append_nil] at this
-      rw [trimStart_of_not_wsPrefix _ this]
-      simp [List.dropWhile_cons, ho]
-
-theorem trimStartRev_eq_dropWhile : ∀ (z : Bytes), FB z.reverse → NoUS z.reverse →
-    trimStartRev z = z.dropWhile isOws
-  | [], _, _ => by simp [trimStartRev]
-  | b :: r, hf, hn => by
-    have hfb : isFieldByte b = true := (List.all_eq_true.mp hf) b (by simp)
-    have hsub : r.reverse <:+: (b :: r).reverse := by
-      rw [List.reverse_cons]; exact (List.prefix_append _ _).isInfix
-    cases ho : isOws b with
-    | true =>
-      have e : b :: r = [b] ++ r := rfl
-      rw [e, trimStartRev_ows [b] r (by simp [ho])]
-      simp only [List.singleton_append, List.dropWhile_cons, ho, if_true]
-      exact trimStartRev_eq_dropWhile r (hf.infix hsub) (hn.infix hsub)
-    | false =>
-      have := wsPrefixRev_reverse (b :: r).reverse
-        (by intro c hc; simp at hc; subst hc; exact fieldByte_not_ws1 hfb ho) hn.ends
-      rw [List.reverse_reverse] at this
-      rw [trimStartRev_of_not_wsPrefixRev _ this]
-      simp [List.dropWhile_cons, ho]
-
-/-- on field bytes without non-ASCII White_Space, `str::trim` is OWS trimming -/
-theorem trim_eq_trimOws (x : Bytes) (hf : FB x) (hn : NoUS x) : trim x = trimOws x := by
-  unfold trim trimOws trimEnd
-  rw [trimStart_eq_dropWhile x hf hn]
-  have hs : x.dropWhile isOws <:+: x := (List.dropWhile_suffix _).isInfix
-  rw [trimStartRev_eq_dropWhile _ (by rw [List.reverse_reverse]; exact hf.infix hs)
-    (by rw [List.reverse_reverse]; exact hn.infix hs)]
 
 theorem trimOws_infix (x : Bytes) : trimOws x <:+: x := by
   unfold trimOws
@@ -155,11 +74,11 @@ theorem splitByte_infix (c : UInt8) : ∀ (x : Bytes) (p : Bytes), p ∈ splitBy
         · exact (List.cons_prefix_cons.mpr ⟨rfl, splitByte_head_prefix c r l ls hs⟩).isInfix
         · exact (ih p (by rw [hs]; simp [h])).trans (List.suffix_cons a r).isInfix
 
-theorem parseCookiePiece_eq (p : Bytes) (pos : Nat) (hf : FB p) (hn : NoUS p) :
+theorem parseCookiePiece_eq (p : Bytes) (pos : Nat) (hf : FB p) :
     parseCookiePiece p pos =
       if (trimOws p).isEmpty then none else some (cookieOf (trimOws p, pos)) := by
   unfold parseCookiePiece
-  rw [trim_eq_trimOws p hf hn]
+  rw [trimAscii_eq_trimOws p hf]
   simp only []
   cases he : (trimOws p).isEmpty with
   | true => simp
@@ -173,26 +92,22 @@ theorem parseCookiePiece_eq (p : Bytes) (pos : Nat) (hf : FB p) (hn : NoUS p) :
       obtain ⟨n, v⟩ := nv
       obtain ⟨h1, h2⟩ := splitFirst_infix 61 _ n v hs
       simp only []
-      rw [trim_eq_trimOws n (hf.infix (h1.trans hq)) (hn.infix (h1.trans hq)),
-        trim_eq_trimOws v (hf.infix (h2.trans hq)) (hn.infix (h2.trans hq))]
+      rw [trimAscii_eq_trimOws n (hf.infix (h1.trans hq)), trimAscii_eq_trimOws v (hf.infix (h2.trans hq))]
 
-theorem parseCookiePieces_eq : ∀ (ps : List Bytes) (n : Nat), (∀ p ∈ ps, FB p ∧ NoUS p) →
+theorem parseCookiePieces_eq : ∀ (ps : List Bytes) (n : Nat), (∀ p ∈ ps, FB p) →
     parseCookiePieces ps n = (((ps.map trimOws).filter (fun p => !p.isEmpty)).zipIdx n).map cookieOf
   | [], _, _ => rfl
   | p :: ps, n, h => by
-    obtain ⟨hf, hn⟩ := h p (by simp)
+    have hf := h p (by simp)
     have ih := fun k => parseCookiePieces_eq ps k (fun q hq => h q (by simp [hq]))
-    simp only [parseCookiePieces, parseCookiePiece_eq p n hf hn, List.map_cons, List.filter_cons]
+    simp only [parseCookiePieces, parseCookiePiece_eq p n hf, List.map_cons, List.filter_cons]
     cases he : (trimOws p).isEmpty with
     | true => simp [ih]
     | false => simp [ih, List.zipIdx_cons]
 
-/-- `parse_cookies` on a field value without non-ASCII White_Space is the OWS-based split -/
-theorem parseCookies_eq (v : Bytes) (hf : v.all isFieldByte = true) (hn : containsUSpace v = false) :
-    parseCookies v = cookiesOf v := by
+/-- `parse_cookies` on a field value is the OWS-based split -/
+theorem parseCookies_eq (v : Bytes) (hf : v.all isFieldByte = true) : parseCookies v = cookiesOf v := by
   unfold parseCookies cookiesOf cookiePieces
-  have hN := noUS_of_contains v hn
-  exact parseCookiePieces_eq _ 0 (fun p hp =>
-    ⟨FB.infix hf (splitByte_infix 59 v p hp), hN.infix (splitByte_infix 59 v p hp)⟩)
+  exact parseCookiePieces_eq _ 0 (fun p hp => FB.infix hf (splitByte_infix 59 v p hp))
 
 end Huginn.Http1
